@@ -4,6 +4,7 @@ import PMH.Model.MaxTracker
 import PMH.Model.InvHashGen
 import PMH.Model.Prng
 import PMH.Model.FYShuffle
+import PMH.Model.Sig
 import Std.Data.HashMap
 /-!
 # `pmhdriver`: line protocol in front of the executable models
@@ -120,6 +121,25 @@ def stepFy (st : DState) : List String → DState × String
     | none => (st, "bad-op")
   | _ => (st, "bad-op")
 
+def hexBytes (l : List Nat) : String :=
+  if l.isEmpty then "-" else String.join (l.map (toHexW 2))
+
+def natsOf (l : List String) : Option (List Nat) := l.mapM (·.toNat?)
+
+def stepSig : List String → String
+  | ["u8", x] => match x.toNat? with | some x => hexBytes (Sig.sigU8 x) | none => "bad-op"
+  | ["u16", x] => match x.toNat? with | some x => hexBytes (Sig.sigU16 x) | none => "bad-op"
+  | ["u32", x] => match x.toNat? with | some x => hexBytes (Sig.sigU32 x) | none => "bad-op"
+  | ["u64", x] => match x.toNat? with | some x => hexBytes (Sig.sigU64 x) | none => "bad-op"
+  | "vecu8" :: xs => match natsOf xs with | some l => hexBytes (Sig.sigVecU8 l) | none => "bad-op"
+  | "vecu16" :: xs => match natsOf xs with | some l => hexBytes (Sig.sigVecU16 l) | none => "bad-op"
+  | "vecu32" :: xs => match natsOf xs with | some l => hexBytes (Sig.sigVecU32 l) | none => "bad-op"
+  | "str" :: xs => match natsOf xs with
+    | some l => hexBytes (Sig.sigString (String.ofList (l.map Char.ofNat)))
+    | none => "bad-op"
+  | ["noop"] => "ok"
+  | _ => "bad-op"
+
 def step (st : DState) (line : String) : DState × String :=
   match (line.trimAscii.toString.splitOn " ").filter (· ≠ "") with
   | "case" :: id :: _ => (st, "case " ++ id)
@@ -127,6 +147,7 @@ def step (st : DState) (line : String) : DState × String :=
   | "ih" :: rest => (st, stepIh rest)
   | "xo" :: rest => (st, stepXo rest)
   | "fy" :: rest => stepFy st rest
+  | "sig" :: rest => (st, stepSig rest)
   | _ => (st, "bad-op")
 
 partial def loop (h : IO.FS.Stream) (out : IO.FS.Stream) (st : DState) : IO Unit := do
